@@ -11,3 +11,4 @@ open HmcVerif.C11
 #print axioms closed_file_is_final
 #print axioms content_is_appended
 #print axioms closed_nothing_pending
+#print axioms parallel_without_consent_refused
